@@ -41,10 +41,11 @@ type Scenario struct {
 	Pause    time.Duration
 }
 
-// Target is one install.
+// Target is one install - or, with Flush set, a second Flush issued while the first one is paused.
 type Target struct {
-	NI  string
-	Key uint64
+	NI    string
+	Key   uint64
+	Flush []string
 }
 
 // Event is the record written per scenario.
@@ -86,7 +87,7 @@ func contents(r *rib.RIB, nis []string) (map[string][]uint64, error) {
 
 // Run executes one scenario.
 func Run(n int, sc Scenario) (Event, error) {
-	ev := Event{Ev: "lin", N: n, FlushNIs: sc.FlushNIs, PauseNI: sc.PauseNI}
+	ev := Event{Ev: "lin", N: n, FlushNIs: sc.FlushNIs, PauseNI: sc.PauseNI, Ops: []Op{}, Final: map[string][]uint64{}, Initial: map[string][]uint64{}}
 	r := rib.New(sc.NIs[0])
 	for _, ni := range sc.NIs[1:] {
 		if err := r.AddNetworkInstance(ni); err != nil {
@@ -121,12 +122,21 @@ func Run(n int, sc Scenario) (Event, error) {
 				defer wg.Done()
 				for i, t := range prog {
 					o := Op{K: "add", NIs: []string{}, NI: t.NI, Key: t.Key, Who: fmt.Sprintf("a%d.%d", ai+1, i+1)}
-					id := atomic.AddUint64(&opid, 1)
-					o.Inv = clock.Add(1)
-					_, fails, err := r.AddEntry(t.NI, nhOp(id, t.NI, t.Key))
-					o.Ret = clock.Add(1)
-					if err != nil || len(fails) != 0 {
-						o.Fail = fmt.Sprintf("%v %v", err, len(fails))
+					if t.Flush != nil {
+						o.K, o.NIs = "flush", t.Flush
+						o.Inv = clock.Add(1)
+						if err := r.Flush(t.Flush); err != nil {
+							o.Fail = err.Error()
+						}
+						o.Ret = clock.Add(1)
+					} else {
+						id := atomic.AddUint64(&opid, 1)
+						o.Inv = clock.Add(1)
+						_, fails, err := r.AddEntry(t.NI, nhOp(id, t.NI, t.Key))
+						o.Ret = clock.Add(1)
+						if err != nil || len(fails) != 0 {
+							o.Fail = fmt.Sprintf("%v %v", err, len(fails))
+						}
 					}
 					if paused.Load() {
 						ackedInPause.Add(1)
@@ -175,7 +185,7 @@ func Run(n int, sc Scenario) (Event, error) {
 	select {
 	case <-all:
 		ev.Completed = true
-	case <-time.After(10 * time.Second):
+	case <-time.After(4 * time.Second):
 		return ev, nil // reported as a hang
 	}
 	record(fl)
@@ -222,6 +232,13 @@ func Directed() []Scenario {
 				out = append(out, Scenario{NIs: nis, FlushNIs: nis, PauseNI: pause, Pause: 15 * time.Millisecond,
 					Progs: [][]Target{{{NI: first, Key: 100}, {NI: second, Key: 200}}}})
 			}
+		}
+	}
+	// a second Flush of all instances issued while the first one is paused in each of them (lock order between Flushes)
+	for _, pause := range nis {
+		for rep := 0; rep < 3; rep++ {
+			out = append(out, Scenario{NIs: nis, FlushNIs: nis, PauseNI: pause, Pause: 15 * time.Millisecond,
+				Progs: [][]Target{{{Flush: nis}, {NI: nis[rep], Key: 100}}}})
 		}
 	}
 	return out
